@@ -27,7 +27,16 @@ def replay(h, res, pid, kani_cmd, sh, verif, logs, env):
     rc, to = sh(kani_cmd(h, "-Z concrete-playback --concrete-playback=print"), log,
                 max(3 * h["timeout"], 1800), os.path.join(verif, h["crate"]))
     text = open(log, errors="replace").read()
-    tests = extract_tests(text)
+    def check_msg(t):
+        m = re.search(r"/// Check for `[^`]*`: (.*)", t)
+        d = m.group(1) if m else ""
+        if "concat! (" in d:
+            d = "".join(re.findall(r'"([^"]*)"', d[d.index("concat! ("):]))
+        return d.strip('"')
+    tests = [t for t in extract_tests(text) if check_msg(t).startswith(pid + ":")]
+    # complete schedules first (they replay without junk from unrealisable guesses)
+    tests.sort(key=lambda t: 0 if "[replayable]" in check_msg(t) else 1)
+    tests = tests[:3]
     rec = dict(property=pid, harness=h["harness"], crate=h["crate"], failed=res["failed"],
                tests=tests, kani_flags=h.get("kani_flags", ""))
     path = base + ".json"
@@ -61,13 +70,21 @@ def run_tests(rec, verif, sh, logs):
     # the generated test refers to the harness by its bare name
     open(src, "w").write(body)
     reproduced = False
+    names = re.findall(r"fn (kani_concrete_playback_\w+)\(", inner)
     for profile in ("", "--release"):
-        log = os.path.join(logs, "replay.%s.%s.log" % (modname, profile.strip("-") or "dev"))
-        cmd = "cargo kani playback -Z concrete-playback %s -- kani_concrete_playback --nocapture" % profile
-        sh(cmd, log, 1200, scratch)
-        out = open(log, errors="replace").read()
-        if re.search(r"panicked at .*\n?.*%s:" % re.escape(pid), out) or (pid + ":") in out and "FAILED" in out:
-            reproduced = True
+        for i, name in enumerate(names):
+            log = os.path.join(logs, "replay.%s.%s.%d.log" % (modname, profile.strip("-") or "dev", i))
+            # one test per process: the shim state is process-global
+            cmd = ("cargo kani playback -Z concrete-playback %s -- %s --nocapture --test-threads=1"
+                   % (profile, name))
+            sh(cmd, log, 1200, scratch)
+            out = open(log, errors="replace").read()
+            m = re.search(r"panicked at [^\n]*\n([^\n]*)", out)
+            if m and m.group(1).lstrip('"').startswith(pid + ":"):
+                reproduced = True
+                rec.setdefault("native", []).append(dict(test=name, profile=profile or "dev", panic=m.group(1)))
+        if reproduced:
+            break
     shutil.rmtree(scratch, ignore_errors=True)
     return reproduced
 
